@@ -100,6 +100,17 @@ def export(D):
     return DomainExporter().extract_domain(D)
 
 
+_SHARED = []
+
+
+def export_shared(D):
+    """one exporter object for every domain of the run (all programs are called 'v' and differ in their declarations)"""
+    from pddl_plus_parser.exporters import DomainExporter
+    if not _SHARED:
+        _SHARED.append(DomainExporter())
+    return _SHARED[0].extract_domain(D)
+
+
 def abs_key(P: RefDomain):
     """Structural digest of an abstraction: vocabulary + normalised action trees (numerals canonical)."""
     return {
@@ -269,6 +280,19 @@ def check_generated(case, r):
                        show(s2) if s2 is not None else show(a2), tags=case["tags"])
                 return
         if not (sched.choices and any(sched.choices)):
+            shared = guard(export_shared, parse_domain(pg.text))
+
+            def same_domain():
+                # order-insensitive: the operands of a conjunction come out of hash sets
+                Dsh = parse_domain(shared)
+                if vocab_lib(Dsh) != v2:
+                    return False
+                return P2 is None or abs_key(abs_domain(Dsh)) == abs_key(P2)
+            if isinstance(shared, Raised) or guard(same_domain) is not True:
+                r.outcome("shared-exporter-differs")
+                r.fail("exporter-reuse", f"an exporter object that exported other domains before gives a different text for "
+                       f"this one:\n{str(shared)[:600]}\n--- a fresh exporter:\n{out}", out, str(shared)[:500], tags=case["tags"])
+                return
             again = guard(export, D)
             if isinstance(again, Raised) or sexp.read(again) != sexp.read(out):
                 r.outcome("export-after-use-differs")
